@@ -5,6 +5,7 @@ proxies (every character a z3 integer over the whole code-point range, linelen a
 z3 integer >= 1) and decides, per path, validity queries over the path condition.
 """
 import os
+import re
 import sys
 import time
 
@@ -505,12 +506,111 @@ def replay(path):
     import json
     with open(path) as f:
         w = json.load(f)
+    if w.get("kind") == "files":
+        verdict = confirm_files(w)
+        print("configuration: name_length=%(name_length)s C_line_length=%(C_line_length)s F_line_length=%(F_line_length)s" % w)
+        print("verdict: %s" % (verdict or "property holds on this input"))
+        return verdict
     verdict, out = confirm(w)
     print("input  : %r linelen=%s indent=%s cont=%r unit=%r"
           % (w.get("line", w.get("lines")), w["linelen"], w["indent"], w["cont"], w["unit"]))
     print("output : %r" % (out,))
     print("verdict: %s" % (verdict or "property holds on this input"))
     return verdict
+
+
+# ----------------------------------------------------------------------------- whole generated files
+LEN_CONFIGS = [(72, 72), (120, 72), (72, 120), (40, 60)]
+NAME_LENGTHS = [8, 20, 31]
+_LONG = "accumulate_field_values_of_the_grid_and_more"
+_LONGC = "VeryLongClassNameForTestingPurposesWithPlenty"
+
+
+def long_library(n, cl, fl):
+    nm, cn = _LONG[:n], _LONGC[:n]
+    return {"library": "lin", "cxx_header": "lin.hpp",
+            "options": {"wrap_python": True, "wrap_lua": True, "C_line_length": cl, "F_line_length": fl},
+            "declarations": [
+                {"decl": "class %s" % cn, "declarations": [
+                    {"decl": "%s()" % cn},
+                    {"decl": "int %s(int first_argument_name, double second_argument_name = 1.0, int third_argument_name = 2, "
+                             "int fourth_argument_name = 3, int fifth_argument_name = 4)" % nm},
+                    {"decl": "void %s_b(const std::string &text_argument_name, int *output_argument_name +intent(out))" % nm}]},
+                {"decl": "double %s(const double *values_argument_name +rank(1), int count_argument_name +implied(size(values_argument_name)), "
+                         "const std::string &label_argument_name)" % nm},
+                {"decl": "int %s(int only_argument_name)" % nm},
+                {"decl": "void %s_g(double first_value, double second_value)" % nm,
+                 "fortran_generic": [{"decl": "(float first_value, float second_value)"}, {"decl": "(double first_value, double second_value)"}]},
+            ]}
+
+
+def file_kind(f):
+    b = os.path.basename(f)
+    if b.endswith(".f"):
+        return "fortran"
+    if b.endswith((".h", ".hpp", ".c", ".cpp")):
+        return "c-family"
+    return None
+
+
+class FilesHarness(object):
+    """Whole pipeline on a library with long identifiers; the engine picks the identifier length and the
+    (C_line_length, F_line_length) pair.  (1) no non-comment Fortran line is longer than 132 columns;
+    (2) the Fortran files depend on F_line_length only and the C-family files on C_line_length only
+    (each emitter wraps at ITS configured length)."""
+
+    def __init__(self, twin=False):
+        self.twin = twin
+
+    def run(self, e):
+        from gen import pipeline
+        vi, vj = z3.Int("name_length_choice"), z3.Int("line_length_choice")
+        e.assume(z3.And(vi >= 0, vi < len(NAME_LENGTHS), vj >= 0, vj < len(LEN_CONFIGS)))
+        self.n = NAME_LENGTHS[e.choose(vi)]
+        self.cl, self.fl = LEN_CONFIGS[e.choose(vj)]
+        run_ = lambda cl, fl: {f: "".join(p) for f, p in pipeline.run(long_library(self.n, cl, fl)).files.items()}
+        return run_(self.cl, self.fl), run_(72, self.fl), run_(self.cl, 72)
+
+    def witness(self, what):
+        return {"kind": "files", "name_length": self.n, "C_line_length": self.cl, "F_line_length": self.fl, "what": what}
+
+    def judge(self, e, kind, value):
+        cls = "files"
+        if kind == "exc":
+            return {"cls": cls, "violation": self.witness("exception %s: %s" % (type(value).__name__, str(value)[:200])), "vkey": "files:exc"}
+        fail = files_verdict(value, self.cl, self.fl)
+        if self.twin and not fail:
+            fail = "reachability twin"
+        if fail:
+            return {"cls": cls, "violation": self.witness(fail), "vkey": "files:" + re.sub(r"\d+", "N", fail)[:60]}
+        return {"cls": cls, "sample": self.witness(None)}
+
+
+def files_verdict(value, cl, fl):
+    got, same_f, same_c = value
+    for f, t in sorted(got.items()):
+        if file_kind(f) == "fortran":
+            for k, ln in enumerate(t.split("\n")):
+                if len(ln) > 132 and not ln.lstrip().startswith("!"):
+                    return "%s line %d is %d columns long (Fortran allows 132): %r" % (os.path.basename(f), k + 1, len(ln), ln[:60])
+    for f, t in sorted(got.items()):
+        k = file_kind(f)
+        if k == "fortran" and same_f.get(f) != t:
+            return "%s changes with C_line_length (%d vs 72) although F_line_length is %d in both runs" % (os.path.basename(f), cl, fl)
+        if k == "c-family" and same_c.get(f) != t:
+            return "%s changes with F_line_length (%d vs 72) although C_line_length is %d in both runs" % (os.path.basename(f), fl, cl)
+    return None
+
+
+def make_files(**kw):
+    return FilesHarness(**kw)
+
+
+def confirm_files(w):
+    from gen import pipeline
+    run_ = lambda cl, fl: {f: "".join(p) for f, p in pipeline.run(long_library(w["name_length"], cl, fl)).files.items()}
+    return files_verdict((run_(w["C_line_length"], w["F_line_length"]), run_(72, w["F_line_length"]), run_(w["C_line_length"], 72)),
+                         w["C_line_length"], w["F_line_length"])
 
 
 # ----------------------------------------------------------------------------- main
@@ -552,6 +652,7 @@ def main():
             twin_ok = False
             rep.inconc("reachability twin %s did not fail on every path (%d/%d) %s"
                        % (fac, a.nviol, a.stats.paths, a.inconclusive[:1]))
+    jobs.append(("make_files", {}))
     specs = [("harness.C13", fac, kw) for fac, kw in jobs]
     accs = driver.explore_many(specs, split_depth=7, time_budget_s=budget)
     for (fac, kw), a in zip(jobs, accs):
@@ -567,6 +668,17 @@ def main():
     for i, v in enumerate(total.violations):
         key = (v["kind"], v.get("what"))
         path = checklib.write_replay(PID, "cex%03d" % i, v)
+        if v["kind"] == "files":
+            verdict = confirm_files(v)
+            if verdict is None:
+                rep.inconc("counterexample did not reproduce: %r" % (v,))
+                continue
+            confirmed += 1
+            if key not in seen:
+                seen.add(key)
+                rep.violation(path, "%s  name_length=%d C_line_length=%d F_line_length=%d" % (
+                    verdict, v["name_length"], v["C_line_length"], v["F_line_length"]))
+            continue
         verdict, _ = confirm(v)
         if verdict is None:
             rep.inconc("counterexample did not reproduce on the plain run: %r" % (v,))
@@ -586,10 +698,12 @@ def main():
         "traces_validated_against_impl": confirmed + total.counters.get("validated", 0),
         "samples": samples[:8],
         "exhaustive": False,
-        "functions_encoded": ["shroud.util.WrapperMixin.write_continue", "shroud.util.WrapperMixin.write_lines"],
+        "functions_encoded": ["shroud.util.WrapperMixin.write_continue", "shroud.util.WrapperMixin.write_lines",
+                              "whole pipeline on a library with long identifiers (files kernel)"],
         "bounds": {"write_continue_len_max": nmax_c, "write_lines_len_max": nmax_l,
                    "configs(indent,cont,unit)": cfgs, "chars": "every code point 1..0x10FFFF except newline",
-                   "linelen": "any integer >= 1"},
+                   "linelen": "any integer >= 1", "files_kernel_identifier_lengths": NAME_LENGTHS,
+                   "files_kernel_(C_line_length,F_line_length)": LEN_CONFIGS},
         "solver": {"name": "z3 " + z3.get_version_string(), "queries": total.stats.queries,
                    "solver_s": round(total.stats.solver_s, 2)},
         "paths_reaching_assertion": total.reached,
@@ -602,7 +716,7 @@ def main():
         "logical line non-empty and free of newlines (write_lines splits on newlines first)",
         "a line consisting only of directive characters (e.g. '@', '+', '-', '+-') is outside the claim",
         "lines longer than the bound are outside the claim; linelen is unbounded above",
-        "the clause about 132-column Fortran lines over whole generated files is not decided here",
+        "the 132-column clause over whole generated files is decided on one generated library with identifiers of 8/20/31 characters (a class with default-argument methods, array/implied/string arguments, a fortran_generic function), not on the upstream corpus",
     ]
     checklib.write_evidence(PID, tier, seed, "model_checking", cov, assumptions, rep.wall(), len(rep.violations))
     return rep.finish()
